@@ -40,6 +40,7 @@ type Clause struct {
 	// assert@call
 	Callee  string
 	Ordinal int
+	Each    bool // `#each`: holds vacuously when the anchor does not occur
 	ExtraParams []string
 	File    string
 	Line    int
@@ -135,6 +136,43 @@ type ContractSet struct {
 	errs      []string
 	notes     []string
 	renames   []*rebinding
+	dispatch  []*DispatchCheck
+}
+
+// DispatchCheck: a structural obligation decided by go/types on every run.
+type DispatchCheck struct {
+	Pkg, Type, Method, From string
+	Tags                    []string
+	File                    string
+}
+
+// holds reports whether Type's method set (value and pointer) selects Method through the embedded field From.
+func (dc *DispatchCheck) holds(l *Loaded) (bool, string) {
+	path := modPath
+	if dc.Pkg != "" {
+		path += "/" + dc.Pkg
+	}
+	p := l.ByPath[path]
+	if p == nil || p.Types == nil {
+		return false, "package not loaded"
+	}
+	tn, _ := p.Types.Scope().Lookup(dc.Type).(*types.TypeName)
+	if tn == nil {
+		return false, "type " + dc.Type + " not found"
+	}
+	obj, index, _ := types.LookupFieldOrMethod(tn.Type(), true, p.Types, dc.Method)
+	fn, ok := obj.(*types.Func)
+	if !ok {
+		return false, "no method " + dc.Method
+	}
+	if len(index) < 2 {
+		return false, fmt.Sprintf("%s.%s is declared on %s itself (%s): it replaces the method promoted from %s", dc.Type, dc.Method, dc.Type, l.Prog.Fset.Position(fn.Pos()), dc.From)
+	}
+	st, ok := tn.Type().Underlying().(*types.Struct)
+	if !ok || index[0] >= st.NumFields() || st.Field(index[0]).Name() != dc.From {
+		return false, fmt.Sprintf("%s.%s is not promoted from %s", dc.Type, dc.Method, dc.From)
+	}
+	return true, ""
 }
 
 var pkgDirs = []string{"", "xmlenc", "samlsp", "samlidp"}
@@ -274,6 +312,20 @@ func (cs *ContractSet) parseFile(path, pkgDir string, extern bool) {
 				continue
 			}
 			cs.globalInvs = append(cs.globalInvs, &GlobalInv{Label: lm[1], Text: lm[2], Pkg: pkgDir, Checked: word == "globalinv", File: where})
+		case word == "dispatch" || strings.HasPrefix(word, "dispatch["):
+			// dispatch[tags] Type.Method promoted Embedded -- the method a dependency calls back through an interface is the one
+			// promoted from that embedded field (so that the assumed contract of the dependency describes what really runs)
+			f := strings.Fields(rest)
+			tags := ""
+			if i := strings.Index(word, "["); i >= 0 {
+				tags = word[i:]
+			}
+			if len(f) == 3 && f[1] == "promoted" && strings.Contains(f[0], ".") {
+				i := strings.Index(f[0], ".")
+				cs.dispatch = append(cs.dispatch, &DispatchCheck{Pkg: pkgDir, Type: f[0][:i], Method: f[0][i+1:], From: f[2], Tags: parseTags(tags), File: where})
+			} else {
+				cs.errs = append(cs.errs, where+": dispatch needs `Type.Method promoted EmbeddedField`")
+			}
 		case word == "guardedby":
 			f := strings.Fields(rest)
 			if len(f) == 2 && strings.Contains(f[0], ".") {
@@ -387,6 +439,9 @@ func (cs *ContractSet) parseFile(path, pkgDir string, extern bool) {
 				cl.Callee = f[0]
 				if f[1] == "#last" {
 					cl.Ordinal = -1 // the last occurrence in source order
+				} else if f[1] == "#each" {
+					cl.Ordinal = 0 // every occurrence - of which there may be none (`#0`: every occurrence, at least one)
+					cl.Each = true
 				} else {
 					fmt.Sscanf(f[1], "#%d", &cl.Ordinal)
 				}
@@ -850,7 +905,7 @@ func (cs *ContractSet) buildOverlay() (map[string][]byte, error) {
 			}
 		}
 		var body strings.Builder
-		body.WriteString("\nfunc forall(lo, hi int, f func(k int) bool) bool\nfunc exists(lo, hi int, f func(k int) bool) bool\nfunc ns(t time.Time) int64\nfunc NoLocksHeld() bool\n")
+		body.WriteString("\nfunc forall(lo, hi int, f func(k int) bool) bool\nfunc exists(lo, hi int, f func(k int) bool) bool\nfunc ns(t time.Time) int64\nfunc NoLocksHeld() bool\nfunc old(x int) int\nfunc oldS(x string) string\n")
 		if dir == "" {
 			for _, d := range cs.extDecls {
 				body.WriteString(d + "\n")
@@ -1160,6 +1215,7 @@ func (cs *ContractSet) resolve(e *Engine) {
 		e.renamedNew[contractKey(rb.Dir, rb.New)] = contractKey(rb.Dir, rb.Old)
 	}
 	e.stale = append(e.stale, cs.notes...)
+	e.dispatch = cs.dispatch
 	for _, ct := range cs.contracts {
 		fn := e.funcs[ct.Key]
 		if fn == nil {
